@@ -1692,6 +1692,16 @@ class Executor:
                     self.unsupported(t, "symbolic dict key")
                 base[k] = v   # concrete local dict (not shared with the snapshot)
                 return
+            if isinstance(base, list) and not isinstance(t.slice, ast.Slice):
+                # a concrete python list held as such (the process argument vector): plain item assignment
+                k = py_number(self.ev(t.slice, st))
+                if is_sym(k):
+                    self.unsupported(t, "symbolic index into a concrete list")
+                try:
+                    base[k] = v
+                except IndexError:
+                    raise PathRaise(IndexError, "list assignment index out of range")
+                return
             if not isinstance(base, CellRef):
                 self.unsupported(t, f"subscript assignment on {type(base).__name__}")
             if st.log is not None and len(st.frames) == st.log.depth:
